@@ -1137,7 +1137,9 @@ def compare_function(name, progA, progB, bounds, enter=False, timeout_s=20, igno
     world.is_subtype = progB.is_subtype
     if typed:
         world.types = wf_types if wf_types is not None else progB.types
-    world.loose_views = js
+    # fields of unknown objects are keyed by (object, static view, index); when the two programs name their types
+    # differently (type deduplication merges identical layouts) or have no types (JavaScript) the view is dropped
+    world.loose_views = js or ignore_type_names
     solver = z3.Solver()
     exA = Exec(progA, world, "ref", enter, bounds, solver)
     exB = Exec(progB, world, "new", enter, bounds, solver)
